@@ -73,6 +73,9 @@ type signDesc struct {
 	RefSigns bool   `json:"ref_signs"`
 	Extra    bool   `json:"extra_prot"` // additional protected header besides alg
 	Tamper   tamper `json:"tamper"`
+	// OtherSize: RSA algorithms with the key of the OTHER modulus size (RS256/PS256 with 3072 bits,
+	// RS384/PS384 with 2048 bits): legal COSE, and what Sign produces Verify has to accept
+	OtherSize bool `json:"other_size,omitempty"`
 }
 
 var tamperKinds = []string{"none", "sig-bit", "prot-bit", "payload-bit", "aad-bit", "key-same-type", "key-other-type", "siglen", "alg-hdr", "detached-other"}
@@ -94,6 +97,9 @@ func genSign(t *rapid.T) signDesc {
 	d.Payload = hex.EncodeToString(pl)
 	if rapid.Bool().Draw(t, "hasaad") {
 		d.AAD = hex.EncodeToString(rapid.SliceOfN(rapid.Byte(), 1, 40).Draw(t, "aad"))
+	}
+	if (d.Alg[0] == 'R' || d.Alg[0] == 'P') && rapid.IntRange(0, 3).Draw(t, "othersize") == 0 {
+		d.OtherSize = true
 	}
 	if rapid.IntRange(0, 2).Draw(t, "neg") > 0 {
 		d.Tamper = tamper{Kind: rapid.SampledFrom(tamperKinds[1:]).Draw(t, "tk"), Arg: rapid.IntRange(0, 1<<16).Draw(t, "targ")}
@@ -151,7 +157,11 @@ func runSign[P any](d signDesc, payload P, alter func(P, int) P) ev.Result {
 	if ai == nil {
 		return ev.Result{Skip: true}
 	}
-	key := keys.Get(ai.kind, d.Key)
+	kind := ai.kind
+	if d.OtherSize && keys.IsRSA(kind) {
+		kind = map[string]string{"rsa2048": "rsa3072", "rsa3072": "rsa2048"}[kind]
+	}
+	key := keys.Get(kind, d.Key)
 	var aad []byte
 	if d.AAD != "" {
 		aad, _ = hex.DecodeString(d.AAD)
@@ -322,11 +332,11 @@ func runSign[P any](d signDesc, payload P, alter func(P, int) P) ev.Result {
 			verifyAAD = flip(aad, d.Tamper.Arg)
 		}
 	case "key-same-type":
-		verifyKey = keys.Get(ai.kind, d.Key+1+d.Tamper.Arg%3).Public()
+		verifyKey = keys.Get(kind, d.Key+1+d.Tamper.Arg%3).Public()
 	case "key-other-type":
 		others := []string{}
 		for _, k := range keys.Kinds {
-			if k != ai.kind {
+			if k != kind {
 				others = append(others, k)
 			}
 		}
@@ -649,7 +659,7 @@ func evalMac(d macDesc) ev.Result {
 func TestC13(t *testing.T) {
 	r := ev.Start(t, "C13")
 	defer r.Finish()
-	r.SetRule("sign1", "alg ∈ {ES256,ES384,RS256,RS384,PS256,PS384} × 6 static keys × payload shape {[]byte, struct, RawBytes} × size class (0..5000) × attached/detached × AAD × extra protected header × signer {library, independent reference}; 2/3 of cases carry one tamper (bit of signature / protected map change: a parameter added or an existing one replaced with a value of every CBOR kind incl. null and empty / payload bit / AAD / foreign key of same or other type / impossible signature lengths incl. r‖0000‖s / alg header replaced by unregistered, mismatched, mistyped or missing id / detached override). Oracle: genuine objects verify under the library AND the reference and re-encode identically; tampered objects yield (false,nil) or an error, never true (unless the reference also accepts), never a panic. Non-trivial: every negative case, reference-signed positives and positives whose r or s has a leading zero byte; distinct by descriptor.")
+	r.SetRule("sign1", "alg ∈ {ES256,ES384,RS256,RS384,PS256,PS384} × 6 static keys (RSA algorithms also with the key of the other modulus size) × payload shape {[]byte, struct, RawBytes} × size class (0..5000) × attached/detached × AAD × extra protected header × signer {library, independent reference}; 2/3 of cases carry one tamper (bit of signature / protected map change: a parameter added or an existing one replaced with a value of every CBOR kind incl. null and empty / payload bit / AAD / foreign key of same or other type / impossible signature lengths incl. r‖0000‖s / alg header replaced by unregistered, mismatched, mistyped or missing id / detached override). Oracle: genuine objects verify under the library AND the reference and re-encode identically; tampered objects yield (false,nil) or an error, never true (unless the reference also accepts), never a panic. Non-trivial: every negative case, reference-signed positives and positives whose r or s has a leading zero byte; distinct by descriptor.")
 	ev.Rapid(r, "sign1", ev.N{Quick: 12000, Thorough: 400000}, genSign, evalSign)
 	r.SetRule("siglen-sweep", "exhaustive: every alg × every impossible-length construction (12, incl. r‖0000‖s and 0^k‖r‖0^k‖s) × attached/detached")
 	ev.Enum(r, "siglen-sweep", true, func(yield func(signDesc) bool) {
